@@ -318,6 +318,16 @@ fn judge(case: &CliCase, run: &CliRun, refo: &Outcome, reflog: &[crate::job::Log
                         if !se.contains(e.display.trim_end()) {
                             return Some(("error-rendering".into(), ctxs("stderr does not contain the error as the library renders it with the same options")));
                         }
+                        // what was logged before the compilation failed reaches stderr as well, in order
+                        if !case.quiet {
+                            let mut pos = 0usize;
+                            for ev in reflog {
+                                match se[pos..].find(&ev.msg) {
+                                    Some(i) => pos += i + ev.msg.len(),
+                                    None => return Some(("warning-missing".into(), ctxs(&format!("the library delivers {} {:?} before the compilation fails, but it is not on the binary's stderr (in order)", ev.kind, ev.msg)))),
+                                }
+                            }
+                        }
                     }
                 }
                 if run.stderr.is_empty() {
